@@ -18,23 +18,101 @@ FINAL = ('SUCCESS', 'ERROR', 'CANCELLED')
 K1 = {'kind': 'rerun-no-reset-reexecutes-succeeded-items'}
 K2 = {'kind': 'rerun-or-retry-round-starts-index-twice'}
 K3 = {'kind': 'cancelled-item-completes-task-before-all-items'}
+# an item input that fails to evaluate in a LATER concurrency round fails the task while siblings are RUNNING
+KL = {'kind': 'task-completed-before-all-items', 'state': 'ERROR', 'cause': 'input-evaluation-failed-in-later-round'}
+# ... and a rerun of that task starts `concurrency` new children next to the still RUNNING ones
+KR = {'kind': 'running-exceeds-concurrency', 'cause': 'rerun-after-late-input-failure'}
+
+# ----------------------------------------------------------------------------- evaluation failures
+# case['eval'] (optional; old corpus files do not have it) describes how the with-items expression, the
+# per-item action input and `concurrency` evaluate on the real engine:
+#   'items'   : form of the with-items expression / its value (ITEMS_OK: evaluates to iterables of one length,
+#               ITEMS_BAD: InputException / expression error in _get_with_items_values)
+#   'input'   : form of the action input whose evaluation fails for the item indexes in 'bad'
+#   'bad'     : item indexes whose action input fails to evaluate
+#   'conc_bad': value `concurrency: <% $.c %>` evaluates to (ill-typed: refused by ConcurrencyPolicy)
+#   'conc_div': `concurrency: <% 1 / $.c %>` with c = 0 (the expression itself fails)
+#   'ys_len'  : length of the second list for items = 'two-unequal'
+ITEMS_OK = ('list', 'dict', 'string', 'nested', 'two-equal')
+ITEMS_BAD = ('two-unequal', 'second-not-iterable', 'number', 'null', 'bool', 'expr-nofunc', 'expr-div')
+INPUT_FORMS = ('div-inline', 'div-dict', 'div-nested', 'cond-func', 'cond-var', 'dynamic', 'jinja')
+CONC_BAD_VALUES = ['abc', -1, 1.5, None, [1], True, '2']
+DYN_BAD_VALUES = [7, [1], None, 'str']
+
+
+def eval_spec(case):
+    """the model's EvalSpec of a case (None = everything evaluates)"""
+    ev = case.get('eval')
+    if not ev:
+        return None
+    return {'itemsOk': ev.get('items', 'list') in ITEMS_OK,
+            'concOk': not ('conc_bad' in ev or ev.get('conc_div')),
+            'bad': sorted(ev.get('bad') or [])}
+
+
+def eval_kind(case):
+    """classification for the distribution: none | positive:<items form> | conc | items:<form> |
+    input-first | input-late (no bad index in the first portion of the first round)"""
+    ev = case.get('eval')
+    sp = eval_spec(case)
+    if not sp:
+        return 'none'
+    if not sp['concOk']:
+        return 'conc'
+    if not sp['itemsOk']:
+        return 'items:' + ev['items']
+    if not sp['bad']:
+        return 'positive:' + ev.get('items', 'list')
+    lim = eff_conc(case)
+    if lim and min(sp['bad']) >= lim:
+        return 'input-late'
+    return 'input-first'
 
 
 # ----------------------------------------------------------------------------- generation
 def render_yaml(case):
     n, form, conc = case['n'], case['conc_form'], case['conc']
-    lines = ["version: '2.0'", 'wf:', '  input:', '    - xs', '    - c: 0']
+    ev = case.get('eval') or {}
+    items, inp = ev.get('items', 'list'), ev.get('input')
+    two = items in ('two-equal', 'two-unequal', 'second-not-iterable')
+    lines = ["version: '2.0'", 'wf:', '  input:', '    - xs']
+    if two:
+        lines += ['    - ys: []']
+    lines += ['    - c: 0']
     if form == 'defaults':
         lines += ['  task-defaults:', '    concurrency: %d' % conc]
-    lines += ['  tasks:', '    t1:', '      with-items: i in <% $.xs %>']
-    if case['action'] == 'echo':
-        lines += ['      action: std.echo output=<% $.i %>']
+    lines += ['  tasks:', '    t1:']
+    if two:
+        lines += ['      with-items:', '        - i in <% $.xs %>', '        - j in <% $.ys %>']
+    elif items == 'expr-nofunc':
+        lines += ['      with-items: i in <% $.xs.no_such_function() %>']
+    elif items == 'expr-div':
+        lines += ['      with-items: i in <% $.xs.take(1 / 0) %>']
+    else:
+        lines += ['      with-items: i in <% $.xs %>']
+    if inp in ('div-inline',):
+        lines += ['      action: std.echo output=<% 100 / $.i %>']
+    elif inp == 'div-dict':
+        lines += ['      action: std.echo', '      input:', '        output: <% 100 / $.i %>']
+    elif inp == 'div-nested':
+        lines += ['      action: std.echo', '      input:', '        output:', '          a: [<% 100 / $.i %>]']
+    elif inp == 'cond-func':
+        lines += ['      action: std.echo output=<% switch($.i < 0 => no_such_function($.i), true => $.i) %>']
+    elif inp == 'cond-var':
+        lines += ['      action: std.echo output=<% switch($.i < 0 => $.nothing.foo, true => $.i) %>']
+    elif inp == 'dynamic':
+        lines += ['      action: std.echo', '      input: <% $.i %>']
+    elif inp == 'jinja':
+        lines += ['      action: std.echo output="{{ 100 // _.i }}"']
+    elif case['action'] == 'echo':
+        lines += ['      action: std.echo output=<% [$.i, $.j] %>' if items == 'two-equal' else
+                  '      action: std.echo output=<% $.i %>']
     else:
         lines += ['      action: std.noop']
     if form == 'literal':
         lines += ['      concurrency: %d' % conc]
     elif form == 'expr':
-        lines += ['      concurrency: <% $.c %>']
+        lines += ['      concurrency: <% 1 / $.c %>' if ev.get('conc_div') else '      concurrency: <% $.c %>']
     if case.get('retry'):
         lines += ['      retry:', '        count: %d' % case['retry']['count'],
                   '        delay: %d' % case['retry']['delay']]
@@ -46,12 +124,58 @@ def render_yaml(case):
     return '\n'.join(lines) + '\n'
 
 
+def item_values(case):
+    """the n item values: those of the indexes in eval.bad make the action input fail to evaluate"""
+    n = case['n']
+    ev = case.get('eval') or {}
+    inp, bad = ev.get('input'), set(ev.get('bad') or [])
+    if inp in ('div-inline', 'div-dict', 'div-nested', 'jinja'):
+        return [0 if i in bad else i + 1 for i in range(n)]
+    if inp in ('cond-func', 'cond-var'):
+        return [-(i + 1) if i in bad else 100 + i for i in range(n)]
+    if inp == 'dynamic':
+        return [DYN_BAD_VALUES[i % len(DYN_BAD_VALUES)] if i in bad else {'output': 100 + i} for i in range(n)]
+    return [100 + i for i in range(n)]
+
+
 def wf_input(case):
-    return {'xs': [100 + i for i in range(case['n'])], 'c': case['conc'] if case['conc_form'] == 'expr' else 0}
+    n = case['n']
+    ev = case.get('eval') or {}
+    items = ev.get('items', 'list')
+    vals = item_values(case)
+    if items == 'dict':                    # iterable: its keys
+        xs = {'k%d' % i: v for i, v in enumerate(vals)}
+    elif items == 'string':                # iterable: its characters
+        xs = 'abcdefghijklmnop'[:n]
+    elif items == 'nested':                # the outer list counts
+        xs = [[v, i] for i, v in enumerate(vals)]
+    elif items == 'number':
+        xs = 5
+    elif items == 'null':
+        xs = None
+    elif items == 'bool':
+        xs = True
+    else:
+        xs = vals
+    res = {'xs': xs, 'c': case['conc'] if case['conc_form'] == 'expr' else 0}
+    if 'conc_bad' in ev:
+        res['c'] = ev['conc_bad']
+    elif ev.get('conc_div'):
+        res['c'] = 0
+    if items == 'two-equal':
+        res['ys'] = ['y%d' % i for i in range(n)]
+    elif items == 'two-unequal':
+        res['ys'] = ['y%d' % i for i in range(ev['ys_len'])]
+    elif items == 'second-not-iterable':
+        res['ys'] = 7
+    return res
 
 
 def eff_conc(case):
     """the limit the definition configures (None = unlimited)"""
+    ev = case.get('eval') or {}
+    if 'conc_bad' in ev or ev.get('conc_div'):
+        return None
     if case['conc_form'] == 'absent' or not case['conc']:
         return None
     return case['conc']
@@ -90,11 +214,63 @@ def gen_case(rng):
     p_err = rng.choice([0.0, 0.15, 0.3, 0.5]) if not reruns else rng.choice([0.2, 0.35, 0.5])
     p_cancel = rng.choice([0.0, 0.0, 0.0, 0.08])
     attempts = 1 + (retry['count'] if retry else 0) + len(reruns) * (1 + (retry['count'] if retry else 0)) + 2
-    return {'n': n, 'conc_form': form, 'conc': conc, 'action': rng.choice(['echo', 'echo', 'noop']),
+    case = {'n': n, 'conc_form': form, 'conc': conc, 'action': rng.choice(['echo', 'echo', 'noop']),
             'retry': retry, 'downstream': rng.random() < 0.5,
             'table': gen_table(rng, n, attempts, p_err, p_cancel),
             'policy': rng.choice(['random', 'random', 'random', 'fifo', 'lifo']),
             'reruns': reruns, 'seed': rng.getrandbits(32)}
+    ev = gen_eval(rng, case)
+    if ev:
+        case['eval'] = ev
+        if ev.get('bad') and rng.random() < 0.6:
+            # let the items before the failing one succeed more often, so that later rounds are reached
+            for k in list(case['table']):
+                if case['table'][k][0] in ('error', 'cancel') and rng.random() < 0.7:
+                    case['table'][k] = ['run']
+    return case
+
+
+def gen_eval(rng, case):
+    """evaluation failures for ~40 % of the cases (input of some items / the items expression / `concurrency`),
+    other well-formed shapes of the items for a few more; may adjust the concurrency of the case so that a failing
+    index lies in a later round"""
+    n = case['n']
+    r = rng.random()
+    if r < 0.59:
+        if rng.random() < 0.14:
+            return {'items': rng.choice(['dict', 'string', 'nested', 'two-equal', 'two-equal'])}
+        return None
+    if r < 0.86 and n >= 1:
+        if n >= 2 and rng.random() < 0.45 and not (eff_conc(case) and eff_conc(case) < n):
+            case['conc_form'] = rng.choice(['literal', 'literal', 'expr', 'defaults'])
+            case['conc'] = rng.randint(1, n - 1)
+        limit = eff_conc(case)
+        s = rng.random()
+        if limit and n > limit and s < 0.5:
+            bad = [rng.randrange(limit, n)]                    # evaluated in a later round only
+            if rng.random() < 0.25:
+                bad = sorted(set(bad + [rng.randrange(limit, n)]))
+        elif s < 0.2 or (0.5 <= s < 0.6):
+            bad = [0]
+        elif s < 0.35 or (0.6 <= s < 0.7):
+            bad = [n - 1]
+        elif s < 0.85:
+            bad = [rng.randrange(n)]
+        else:
+            bad = sorted(rng.sample(range(n), min(n, rng.choice([2, 2, 3]))))
+        case['action'] = 'echo'
+        return {'items': rng.choice(['list', 'list', 'list', 'two-equal']),
+                'input': rng.choice(['div-inline', 'div-inline'] + list(INPUT_FORMS)), 'bad': bad}
+    if r < 0.95 or n == 0:
+        items = rng.choice(ITEMS_BAD + ('two-unequal',))
+        ev = {'items': items}
+        if items == 'two-unequal':
+            ev['ys_len'] = rng.choice([n + 1] + ([n - 1, 0] if n > 0 else []))
+        return ev
+    case['conc_form'] = 'expr'
+    if rng.random() < 0.2:
+        return {'conc_div': True}
+    return {'conc_bad': rng.choice(CONC_BAD_VALUES)}
 
 
 # ----------------------------------------------------------------------------- running
@@ -324,13 +500,19 @@ class Runner(object):
 
 # ----------------------------------------------------------------------------- model side
 def model_states(drv, case, ops):
-    return drv.call('withitems.run', {'n': case['n'], 'conc': eff_conc_spec(case), 'retries':
-                                      (case['retry']['count'] if case.get('retry') else 0), 'ops': ops})
+    args = {'n': case['n'], 'conc': eff_conc_spec(case), 'retries':
+            (case['retry']['count'] if case.get('retry') else 0), 'ops': ops}
+    sp = eval_spec(case)
+    if sp:
+        args['eval'] = sp
+    return drv.call('withitems.run', args)
 
 
 def eff_conc_spec(case):
-    """the policy value as the spec gives it (0 stays 0: the model's policyConc drops it)"""
-    if case['conc_form'] == 'absent':
+    """the policy value as the spec gives it (0 stays 0: the model's policyConc drops it); an ill-typed value
+    is the model's `concOk = false` (the number does not matter)"""
+    ev = case.get('eval') or {}
+    if case['conc_form'] == 'absent' or 'conc_bad' in ev or ev.get('conc_div'):
         return None
     return case['conc']
 
@@ -353,20 +535,24 @@ def compare(ctx, case, run, drv, stream='withitems'):
     cur = init
     k = 0
     ok = True
+    rerun_pending = False
     for ei, e in enumerate(run.events):
         if e.op is not None:
             cur = states[k]
             k += 1
+            if e.op['op'] == 'rerun':
+                rerun_pending = False
+        if e.note == 'rerun-request':
+            rerun_pending = True
         rs = real_state(e.snap)
         if rs is None:
             continue
         keys = MODEL_KEYS
-        if e.note == 'rerun-request' or (cur['tstate'] == 'ERROR' and rs['tstate'] == 'ERROR' and not rs['prepared']
-                                         and cur['prepared']):
+        if rerun_pending:
             # engine.rerun_workflow cleared the runtime context; the task restarts at the next
             # start_task delivery (one model operation `rerun`)
             rt = t1_row(e.snap)['rt']
-            if rt not in ({}, None):
+            if e.note == 'rerun-request' and rt not in ({}, None):
                 ctx.disagree(stream, {'case': case, 'event': ei, 'what': 'runtime context after rerun request'},
                              {}, rt)
                 ok = False
@@ -431,6 +617,20 @@ def rounds(run):
     return rs
 
 
+FORCED_PREFIX = ('Failed to run task', 'Failed to handle action completion')
+EVAL_MARKS = ('Can not evaluate', 'Wrong dynamic input', 'Wrong input format', 'Invalid data type in ConcurrencyPolicy')
+
+
+def eval_failed(t):
+    """the committed task row says the task was failed by an evaluation error rather than by its items:
+    `force_fail_task` messages ("Failed to run task [...]" from run_task / continue_task, "Failed to handle action
+    completion [...]" from _on_action_complete), or the message of an evaluation exception handed to Task.complete"""
+    if t is None or t['state'] != 'ERROR':
+        return False
+    si = t.get('state_info') or ''
+    return si.startswith(FORCED_PREFIX) or any(m in si for m in EVAL_MARKS)
+
+
 def monitors(case, run):
     """direct reading of the C07 statement on the committed snapshots; returns [(name, item, sig)]"""
     hits = []
@@ -438,25 +638,88 @@ def monitors(case, run):
     limit = eff_conc(case)
     evs = run.events
     triggers = set()
+    sp = eval_spec(case) or {'itemsOk': True, 'concOk': True, 'bad': []}
+    dead = not (sp['itemsOk'] and sp['concOk'])      # the items expression / `concurrency` can not be evaluated
 
     def hit(name, item, sig=None):
         hits.append((name, item, sig))
 
-    # M1 never more than `concurrency` RUNNING children at once
-    if limit:
-        for i, e in enumerate(evs):
-            rn = len([a for a in t1_actions(e.snap) if a['state'] == 'RUNNING'])
-            if rn > limit:
-                hit('running_gt_concurrency', {'event': i, 'desc': e.desc, 'running': rn, 'limit': limit},
-                    {'kind': 'running-exceeds-concurrency'})
-                break
     def cause(default):
         # consequences of a known trigger in the same trace carry the trigger's signature
         if 'K2' in triggers:
             return K2
         if 'K1' in triggers:
             return K1
+        if 'KR' in triggers:
+            return KR
+        if 'KL' in triggers:
+            return KL
         return default
+
+    # which executions of the task are new in which snapshot
+    new_at = []
+    seen = set()
+    for e in evs:
+        acts = t1_actions(e.snap)
+        new_at.append([a for a in acts if a['ord'] not in seen])
+        seen |= {a['ord'] for a in acts}
+
+    # the known trigger KL: a completion job (a LATER concurrency round) fails the task by an evaluation error,
+    # creates nothing, and siblings started by EARLIER transactions are still RUNNING
+    late = []            # (event, ordinals of the RUNNING siblings)
+    prev_state = None
+    for i, e in enumerate(evs):
+        t = t1_row(e.snap)
+        st = t['state'] if t else None
+        if st in FINAL and prev_state not in FINAL and eval_failed(t) and not new_at[i] \
+                and e.op and e.op['op'] == 'handled':
+            rn = [a['ord'] for a in t1_actions(e.snap) if a['state'] == 'RUNNING']
+            if rn:
+                late.append((i, set(rn)))
+                triggers.add('KL')
+        prev_state = st
+
+    # N1 a transaction never both creates children and completes their task; no child is created for a task
+    #    that is (and stays) completed
+    # N2 a transaction that fails the task by an evaluation error has created no child at all
+    n1 = n2 = False
+    for i, e in enumerate(evs):
+        t = t1_row(e.snap)
+        if not new_at[i] or t is None or t['state'] not in FINAL:
+            continue
+        item = {'event': i, 'desc': e.desc, 'state': t['state'], 'new_indexes': [a['index'] for a in new_at[i]],
+                'state_info': (t.get('state_info') or '')[:160]}
+        if not n1:
+            n1 = True
+            hit('action_created_for_completed_task', item, {'kind': 'action-created-for-completed-task'})
+        if eval_failed(t) and not n2:
+            n2 = True
+            hit('partial_portion_started', item, {'kind': 'input-failure-after-part-of-portion-started'})
+
+    # M1 never more than `concurrency` RUNNING children at once
+    if limit:
+        plain = known = False
+        for i, e in enumerate(evs):
+            rn = {a['ord'] for a in t1_actions(e.snap) if a['state'] == 'RUNNING'}
+            if len(rn) <= limit:
+                continue
+            # the known class: after a late input failure (KL) the task was rerun; the children that were RUNNING
+            # when the task was failed are not counted by the fresh capacity of the rerun: each of them is either
+            # still RUNNING next to `concurrency` new ones, or its completion job (a no-op while the task was ERROR)
+            # is handled after the rerun and releases one more unit of capacity.  The excess is at most their number
+            orphans = set()
+            for (li, lrn) in late:
+                if li < i and any(x.op and x.op['op'] == 'rerun' for x in evs[li + 1:i + 1]):
+                    orphans |= lrn
+            item = {'event': i, 'desc': e.desc, 'running': len(rn), 'limit': limit, 'orphans': len(orphans)}
+            if orphans and len(rn) - limit <= len(orphans):
+                triggers.add('KR')
+                if not known:
+                    known = True
+                    hit('running_gt_concurrency', item, KR)
+            elif not plain:
+                plain = True
+                hit('running_gt_concurrency', item, {'kind': 'running-exceeds-concurrency'})
 
     rds = rounds(run)
     # M2 / M7 per round: which indexes got a new execution
@@ -496,6 +759,7 @@ def monitors(case, run):
 
     # M3 completes only after every item has completed; M5 final state rule; M6 empty
     prev_state = None
+    late_events = {li for (li, _) in late}
     for i, e in enumerate(evs):
         t = t1_row(e.snap)
         st = t['state'] if t else None
@@ -509,27 +773,47 @@ def monitors(case, run):
             missing = [x for x in range(n) if x not in acc]
             any_c = any(a['accepted'] and a['state'] == 'CANCELLED' for a in acts)
             any_e = any(a['accepted'] and a['state'] == 'ERROR' for a in acts)
-            if rn or missing:
-                if st == 'CANCELLED' and any_c:
-                    hit('completed_before_all_items', {'event': i, 'state': st, 'running': rn, 'missing': missing}, K3)
-                else:
-                    hit('completed_before_all_items', {'event': i, 'state': st, 'running': rn, 'missing': missing},
+            if eval_failed(t):
+                # a declared evaluation error: the items that were never started are legitimately missing and the
+                # state is ERROR whatever the items did; but nothing may be RUNNING under the failed task
+                if i in late_events:
+                    hit('completed_before_all_items', {'event': i, 'state': st, 'running': rn, 'missing': missing}, KL)
+                elif rn:
+                    hit('completed_before_all_items', {'event': i, 'state': st, 'running': rn, 'missing': missing,
+                                                       'created_here': [a['index'] for a in new_at[i]]},
                         cause({'kind': 'task-completed-before-all-items', 'state': st}))
-            want = 'CANCELLED' if any_c else ('ERROR' if any_e else 'SUCCESS')
-            if st != want:
-                hit('final_state_rule', {'event': i, 'state': st, 'want': want},
-                    {'kind': 'final-state-rule', 'state': st, 'want': want})
-            if n == 0 and (st != 'SUCCESS' or acts or not (e.op and e.op['op'] == 'start')):
-                hit('empty_list', {'event': i, 'state': st}, {'kind': 'empty-list-not-success-at-once'})
+            else:
+                if rn or missing:
+                    if st == 'CANCELLED' and any_c:
+                        hit('completed_before_all_items', {'event': i, 'state': st, 'running': rn, 'missing': missing}, K3)
+                    else:
+                        hit('completed_before_all_items', {'event': i, 'state': st, 'running': rn, 'missing': missing},
+                            cause({'kind': 'task-completed-before-all-items', 'state': st}))
+                want = 'CANCELLED' if any_c else ('ERROR' if any_e else 'SUCCESS')
+                if st != want:
+                    hit('final_state_rule', {'event': i, 'state': st, 'want': want},
+                        {'kind': 'final-state-rule', 'state': st, 'want': want})
+                if n == 0 and not dead and (st != 'SUCCESS' or acts or not (e.op and e.op['op'] == 'start')):
+                    hit('empty_list', {'event': i, 'state': st}, {'kind': 'empty-list-not-success-at-once'})
         prev_state = st
-    if n == 0:
+    if n == 0 and not dead:
         t = t1_row(run.final)
         if not t or t['state'] != 'SUCCESS':
             hit('empty_list', {'state': t and t['state']}, {'kind': 'empty-list-not-success-at-once'})
+    # N3 an items expression that can not be evaluated (not iterable, lists of unequal length, failing expression)
+    #    or an ill-typed `concurrency` is a DECLARED error: task ERROR, no child ever (undeclared errors: below)
+    if dead:
+        t = t1_row(run.final)
+        ever = sorted({a['index'] for x in new_at for a in x}, key=str)
+        if t is None or not eval_failed(t) or ever:
+            hit('unevaluable_not_declared_error', {'state': t and t['state'], 'children': ever,
+                                                   'state_info': ((t or {}).get('state_info') or '')[:160]},
+                {'kind': 'unevaluable-items-or-concurrency-not-a-declared-error'})
     # M8 the task completes at all; M2(end) exactly one accepted execution per index; M4 result in item order
     t = t1_row(run.final)
     if t is not None:
         acts = t1_actions(run.final)
+        ef = eval_failed(t)
         if t['state'] not in FINAL and not run.exhausted:
             hit('never_completes', {'state': t['state'], 'rt': t['rt'],
                                     'items': [[a['index'], a['state'], a['accepted']] for a in acts]},
@@ -539,10 +823,20 @@ def monitors(case, run):
             for a in acts:
                 if a['accepted']:
                     acc.setdefault(a['index'], []).append(a)
-            wrong = [x for x in range(n) if len(acc.get(x, [])) != 1] + [x for x in acc if x is None or x >= n]
+            if ef:
+                # failed by an evaluation error: items may be missing, none may count twice
+                wrong = [x for x in acc if x is not None and x < n and len(acc[x]) != 1]
+            else:
+                wrong = [x for x in range(n) if len(acc.get(x, [])) != 1]
+            wrong += [x for x in acc if x is None or x >= n]
             if wrong:
                 hit('accepted_once_per_index', {'indexes': wrong, 'state': t['state']},
                     cause({'kind': 'not-exactly-one-accepted-execution-per-index'}))
+            elif ef:
+                want = [result_value(acc[x][0]) for x in sorted(acc)]
+                if run.real_result != want:
+                    hit('result_order', {'want': want, 'got': run.real_result},
+                        cause({'kind': 'result-not-in-item-order'}))
             else:
                 want = [result_value(acc[x][0]) for x in range(n)]
                 got = run.real_result
@@ -555,9 +849,10 @@ def monitors(case, run):
                     if not t2 or (t2[0]['input'] or {}).get('output') != want:
                         hit('result_order', {'want': want, 'downstream': t2 and t2[0]['input']},
                             cause({'kind': 'result-not-in-item-order'}))
-        # M7 a partial rerun re-executes exactly the failed items, a full one all items
+        # M7 a partial rerun re-executes exactly the failed items, a full one all items (a round that ends by an
+        #    evaluation error legitimately leaves items out)
         for r in rds:
-            if r['kind'] != 'rerun':
+            if r['kind'] != 'rerun' or ef:
                 continue
             last = r is rds[-1]
             started = set(r['started'])
@@ -584,9 +879,19 @@ def features(case, run):
     order = [e.op['pos'] for e in run.events if e.op and e.op['op'] == 'result']
     if case['n'] >= 2 and order != sorted(order):
         f.add('out-of-order')
+    prev = None
     for e in run.events:
         if e.op:
             f.add('op:' + e.op['op'] + (':%s' % e.op['reset'] if e.op['op'] == 'rerun' else ''))
+        t = t1_row(e.snap)
+        if t is not None and eval_failed(t) and e.op and prev != 'ERROR':
+            # the transaction in which an evaluation failure strikes
+            f.add('evalfail-in:' + e.op['op'])
+            if any(a['state'] == 'RUNNING' for a in t1_actions(e.snap)):
+                f.add('evalfail-with-running-sibling')
+        if t is not None and eval_failed(t) and e.op and e.op['op'] in ('rerun', 'continue') and prev == 'ERROR':
+            f.add('evalfail-in:' + e.op['op'])
+        prev = t['state'] if t else None
     return f
 
 
@@ -598,10 +903,14 @@ def run_one(ctx, case, drv, choices=None, stream='withitems', script=None):
     ctx.count(stream, 'n:%d' % case['n'])
     ctx.count(stream, 'conc:%s' % case['conc_form'])
     ctx.count(stream, 'final:%s' % (t['state'] if t else None))
+    ctx.count(stream, 'eval:' + eval_kind(case))
+    if (case.get('eval') or {}).get('input'):
+        ctx.count(stream, 'evalform:' + case['eval']['input'])
     for x in f:
         ctx.count(stream, 'feat:' + x)
     key = [case, choices]
-    ctx.evaluated(stream, key, nontrivial=(case['n'] >= 2 and 'out-of-order' in f))
+    ctx.evaluated(stream, key, nontrivial=((case['n'] >= 2 and 'out-of-order' in f)
+                                           or 'evalfail-with-running-sibling' in f))
     for (name, item, sig) in monitors(case, run):
         ctx.count(stream, 'hit:%s:%s' % (name, (sig or {}).get('kind')))
         ctx.violation('C07 monitor %s: %s' % (name, json.dumps(item, default=str)[:300]),
@@ -663,22 +972,36 @@ def exhaustive_cases(max_n):
     return res
 
 
-def exh_case(n, conc, outs, seed=1, rerun=None):
+def exh_case(n, conc, outs, seed=1, rerun=None, bad=None):
     table = {}
     for i, o in enumerate(outs):
         table['%s:%d:0' % (TASK, i)] = {'S': ['value', 'v%d.0' % i], 'E': ['error', 'e%d.0' % i], 'C': ['cancel']}[o]
-    return {'n': n, 'conc_form': 'absent' if conc is None else 'literal', 'conc': conc or 0, 'action': 'echo',
+    case = {'n': n, 'conc_form': 'absent' if conc is None else 'literal', 'conc': conc or 0, 'action': 'echo',
             'retry': None, 'downstream': False, 'table': table, 'policy': 'choices',
             'reruns': [rerun] if rerun else [], 'seed': seed}
+    if bad:
+        case['eval'] = {'items': 'list', 'input': 'div-inline', 'bad': sorted(bad)}
+    return case
+
+
+def exhaustive_eval_cases(max_n):
+    """n <= max_n x every non-empty set of failing item inputs x concurrency (absent, 1..n); all items succeed"""
+    res = []
+    for n in range(1, max_n + 1):
+        for k in range(1, n + 1):
+            for bad in itertools.combinations(range(n), k):
+                for conc in [None] + list(range(1, n + 1)):
+                    res.append((n, conc, 'S' * n, list(bad)))
+    return res
 
 
 def run_exhaustive_chunk(ctx, specs, limit=None):
-    """specs: (n, conc, outcomes, rerun | None[, order limit])"""
+    """specs: (n, conc, outcomes, rerun | None[, order limit[, failing item inputs]])"""
     drv = ctx.driver()
     total = 0
     for sp in specs:
         (n, conc, outs, rr) = sp[:4]
-        case = exh_case(n, conc, outs, rerun=rr)
+        case = exh_case(n, conc, outs, rerun=rr, bad=(sp[5] if len(sp) > 5 else None))
         total += all_orders(ctx, case, drv, limit=(sp[4] if len(sp) > 4 and sp[4] else limit))
     ctx.count('withitems-exh', 'runs', total)
 
